@@ -54,3 +54,67 @@ Proof.
   exists f14c_cells, f14c_rings. eexists. split; [reflexivity|]. split; [reflexivity|].
   split; [vm_compute; reflexivity|]. split; [discriminate|]. split; reflexivity.
 Qed.
+
+(* ---- second pass ---- *)
+Local Open Scope Z_scope.
+Definition two_cells : cells := [ [[1;2;3]]; [[4;5;6]] ].
+Definition two_cells_b : cells := [ [[11;12]]; [[13;14;15;16]] ].
+Definition two_cells_c : cells := [ [[1;2]]; [[3;4;5;6]] ].
+Local Close Scope Z_scope.
+
+Definition cont_of (cs : cells) (idim ndim : nat) : gcont :=
+  {| c_g := container_for cs false None; c_datas := [enc_nodes cs]; c_idim := idim; c_ndim := ndim;
+     c_pdim := 200 |}.
+
+(* Seeded change of round 3: the early return for an already-parsed container does not record the
+   parent.  Two data variables naming one container: the second gets no geometry. *)
+Theorem C14_seeded_early_return_refuted :
+  exists conts dvs i d, nth_error dvs i = Some d /\ good_dvarb conts d = true /\
+    lookup_geometry i (snd (parse_all_gen false conts dvs)) = None /\
+    lookup_geometry i (snd (parse_all_gen true conts dvs)) = Some (d_gid d).
+Proof.
+  exists [cont_of two_cells 0 100], [ {| d_gid := 0; d_dims := [0] |}; {| d_gid := 0; d_dims := [0] |} ],
+         1, {| d_gid := 0; d_dims := [0] |}.
+  repeat split; reflexivity.
+Qed.
+
+(* F14e (HEAD before handoff/C14-fix3-2.diff): the compression is keyed by the node dimension, so
+   of two containers on one node dimension the first is decoded with the counts of the second. *)
+Theorem C14_old_shared_node_dimension_refuted :
+  exists conts dvs, forallb (good_dvarb conts) dvs = true /\
+    read_dataset_gen true false true conts dvs <> Ok (map (own_cells conts) dvs) /\
+    read_dataset conts dvs = Ok (map (own_cells conts) dvs).
+Proof.
+  exists [cont_of two_cells 0 100; cont_of two_cells_b 0 100],
+         [ {| d_gid := 0; d_dims := [0] |}; {| d_gid := 1; d_dims := [0] |} ].
+  split; [reflexivity|]. split; [vm_compute; discriminate|reflexivity].
+Qed.
+
+(* F14d (HEAD before handoff/C14-fix3-1.diff): node coordinate variables are shared between fields
+   on the strength of equal flattened values and equal geometry dimension alone; the second field
+   is then written with (and decodes to) the cells of the first. *)
+Theorem C14_old_fields_share_nodes_refuted :
+  exists fs : list wfield,
+    write_fields_old fs <> map (fun f => write (f_a f) (f_ring f)) fs /\
+    nth 1 (write_fields_old fs) (Err OtherErr) = nth 0 (write_fields_old fs) (Err OtherErr) /\
+    write_fields fs = map (fun f => write (f_a f) (f_ring f)) fs.
+Proof.
+  exists [ {| f_a := pad3 two_cells; f_ring := None; f_gdim := 0 |};
+           {| f_a := pad3 two_cells_c; f_ring := None; f_gdim := 0 |} ].
+  split; [vm_compute; discriminate|]. split; reflexivity.
+Qed.
+
+(* F14f (HEAD before handoff/C14-fix3-3.diff): the interior ring variable of the second container on
+   a part dimension is presented as it is in the file (1-d), not attached to cells and parts. *)
+Theorem C14_old_second_ring_not_uncompressed_refuted :
+  exists conts dvs, forallb (good_dvarb conts) dvs = true /\
+    read_dataset_gen true true false conts dvs <> Ok (map (own_cells conts) dvs) /\
+    read_dataset conts dvs = Ok (map (own_cells conts) dvs).
+Proof.
+  exists [ {| c_g := container_for f14b_cells true (Some f14b_rings); c_datas := [enc_nodes f14b_cells];
+              c_idim := 0; c_ndim := 100; c_pdim := 200 |};
+           {| c_g := container_for f14b_cells true (Some [[0]; [0; 0]]%Z); c_datas := [enc_nodes f14b_cells];
+              c_idim := 0; c_ndim := 101; c_pdim := 200 |} ],
+         [ {| d_gid := 0; d_dims := [0] |}; {| d_gid := 1; d_dims := [0] |} ].
+  split; [reflexivity|]. split; [vm_compute; discriminate|reflexivity].
+Qed.
